@@ -68,6 +68,8 @@ def gen_history_case(rng, what):
     calls = []
     for _ in range(3):
         calls.append(dict(n=rng.randint(1, 3), seed=rng.randrange(1 << 30), data_seed=rng.randrange(1 << 30)))
+    if rng.random() < 0.6:
+        calls[1]["n"] = calls[0]["n"]     # same shape, other content: what a shape-keyed cache would confuse
     if rng.random() < 0.4:
         calls[2] = dict(calls[0])         # the same call again: idempotence
     return dict(stream="history", what=what, calls=calls, model_seed=rng.randrange(1 << 30))
@@ -189,6 +191,15 @@ def conv_model(seed):
     return m
 
 
+def content_map(inp):
+    """a segmentation that depends on the CONTENT of the input (like the default quickshift / felzenszwalb maps):
+    pixels above / below the mean, split again by the column parity"""
+    import tensorflow as tf
+    above = tf.cast(inp[:, :, 0] > tf.reduce_mean(inp), tf.int32)
+    cols = tf.range(tf.shape(inp)[1])[None, :] % 2
+    return above * 2 + cols
+
+
 def make_object(what, model, inputs=None, targets=None):
     import xplique.attributions as A
     import xplique.metrics as M
@@ -196,7 +207,8 @@ def make_object(what, model, inputs=None, targets=None):
         Saliency={}, GradientInput={}, IntegratedGradients=dict(steps=4), SmoothGrad=dict(nb_samples=3, noise=0.1),
         SquareGrad=dict(nb_samples=3, noise=0.1), VarGrad=dict(nb_samples=3, noise=0.1), DeconvNet={}, GuidedBackprop={},
         GradCAM={}, GradCAMPP={}, Occlusion=dict(patch_size=3, patch_stride=2), Rise=dict(nb_samples=6, grid_size=3),
-        Lime=dict(nb_samples=12), KernelShap=dict(nb_samples=12), SobolAttributionMethod=dict(grid_size=2, nb_design=4),
+        Lime=dict(nb_samples=12, map_to_interpret_space=content_map),
+        KernelShap=dict(nb_samples=12, map_to_interpret_space=content_map), SobolAttributionMethod=dict(grid_size=2, nb_design=4),
         HsicAttributionMethod=dict(grid_size=2, nb_design=8))
     if what in kw:
         return getattr(A, what)(model, batch_size=4, **kw[what])
